@@ -48,6 +48,7 @@ struct OpC {
 };
 struct ThreadProg {
   bool coord = false;
+  bool recycle = false;  // role 'R': a worker that gets the same (fake) std::thread::id as the first worker with this probe start
   int pos = 0;
   std::vector<OpC> ops;
 };
@@ -55,6 +56,7 @@ struct Program {
   std::string text;
   int prefix = 0;
   bool sequential = false;
+  int wave2_from = -1;  // threads after "||" start when all earlier threads have exited
   std::vector<ThreadProg> th;
 } PROG;
 
@@ -69,6 +71,16 @@ Parse(const std::string &text)
     p.prefix = atoi(body.substr(2, sc - 2).c_str());
     body = body.substr(sc + 1);
   }
+  {
+    // "A | B || C | D": second wave
+    auto w = body.find("||");
+    if (w != std::string::npos) {
+      int n = 0;
+      for (size_t k = 0; k < w; ++k) n += body[k] == '|' ? 1 : 0;
+      p.wave2_from = n + 1;
+      body = body.substr(0, w) + "|" + body.substr(w + 2);
+    }
+  }
   std::stringstream ss(body);
   std::string thr;
   bool all_turns = true;
@@ -77,6 +89,7 @@ Parse(const std::string &text)
     size_t i = 0;
     while (i < thr.size() && thr[i] == ' ') ++i;
     tp.coord = thr[i] == 'K';
+    tp.recycle = thr[i] == 'R';
     auto c = thr.find(':');
     if (!tp.coord) tp.pos = atoi(thr.substr(i + 1, c - i - 1).c_str());
     std::stringstream ts(thr.substr(c + 1));
@@ -432,6 +445,32 @@ Body(int tid)
         guard.reset();
         break;
       }
+      case 'A': {  // re-arm: assign a freshly created guard over the live one (two guards of one thread overlap
+                   // for a moment, which is outside the one-guard-per-thread discipline: from here on the
+                   // guard is only required to stop pinning when it is destroyed)
+        if (!guard) break;
+        {
+          vs::NoSchedule ns;
+          g.alive = false;
+          g.in_destroy = true;
+          g.has_list = false;
+          ++GH->stamp;
+        }
+        *guard = W->mgr->CreateEpochGuard();
+        break;
+      }
+      case 'X': {  // destroy the manager and construct a new one at the same address (no guard may exist)
+        vs::PlainPoint(&GH->dummy, false);
+        vs::NoSchedule ns;
+        bool any = false;
+        for (int t = 0; t < static_cast<int>(PROG.th.size()); ++t) any |= GH->g[t].alive || GH->g[t].in_create || GH->g[t].in_destroy;
+        if (any) break;
+        W->mgr->~EpochManager();
+        ::new (static_cast<void *>(W->mgr)) EpochManager{};
+        for (auto &c : GH->last_cur) c = 0;
+        GH->nmins = 0;
+        break;
+      }
       case 'I': {  // learn the thread ID explicitly (C15: earlier heartbeats of this ID must be expired)
         const bool first = GH->id_of[tid] < 0;
         const size_t id = IDManager::GetThreadID();
@@ -727,10 +766,17 @@ MakeScenario()
     if (bi.st != vs::B_NONE && bi.size == sizeof(vshim::Ctrl<size_t>)) return Fmt("heartbeat-ctrl[T%d]", bi.owner);
     return "";
   };
+  s.gated_from = PROG.wave2_from;
   int per_pos[16] = {0};
+  unsigned long first_of_pos[16] = {0};
   for (int t = 0; t < s.nthreads; ++t) {
     const int pos = PROG.th[t].pos % kCap;
+    if (PROG.th[t].recycle && first_of_pos[pos] != 0) {
+      s.handles[t] = first_of_pos[pos];  // the operating system reuses the id of a joined thread
+      continue;
+    }
     s.handles[t] = HandleFor(pos, per_pos[pos]++);
+    if (!PROG.th[t].coord && first_of_pos[pos] == 0) first_of_pos[pos] = s.handles[t];
   }
   return s;
 }
@@ -763,6 +809,15 @@ Family(const std::string &f)
       with_prefixes("W0:C P D | W0:C P E P D | W0:C P E D | K:F F", {0, 255});
       with_prefixes("W0:C D | W0:C D | W0:C P E P D | K:F", {0});
     }
+  } else if (f == "recycle") {  // C04: a new thread gets the std::thread::id (and the ID slot) of a joined one
+    out.push_back("k=0;W0:C P D || R0:C P E P D | K:F F");
+    out.push_back("k=0;W0:C D || R0:C P E P D | K:F F F");
+    out.push_back("k=255;W0:C P D || R0:C P E P D | K:F F");
+  } else if (f == "recreate") {  // manager destroyed and constructed again at the same address while a worker thread survives
+    out.push_back("k=0;W0:C@0 D@1 C@3 E@5 D@7 | K:X@2 F@4 F@6");
+    out.push_back("k=0;W0:C@0 D@1 L@3 V@5 D@7 | K:X@2 F@4 F@6");
+    out.push_back("k=0;W0:C@0 D@1 C@4 E@6 D@8 | K:F@2 X@3 F@5 F@7");
+    out.push_back("k=0;W0:C D C P E P D | K:X F F");
   } else if (f == "moves") {  // C16: a guard consumed by a move assignment stops pinning
     out.push_back("k=0;W0:C@0 M@1 | K:F@2 F@3");
     out.push_back("k=255;W0:C@0 M@1 | K:F@2 F@3 B300@4");
@@ -771,6 +826,9 @@ Family(const std::string &f)
     out.push_back("k=0;W0:C M P | K:F F");
     out.push_back("k=0;W0:C T P Z | K:F F");
     out.push_back("k=0;W0:L@0 M@1 | K:B600@2 F@3");
+    out.push_back("k=0;W0:C@0 A@1 D@2 | K:F@3 F@4");
+    out.push_back("k=255;W0:C@0 A@2 D@3 | K:F@1 F@4 B300@5 F@6");
+    out.push_back("k=0;W0:C A P D | K:F F");
   } else if (f == "hb") {  // C15 with the coordinator scanning slots while threads exit and IDs are reused
     if (kCap == 1) {
       with_prefixes("W0:I H C P D | W0:I H C P D | K:F F", {0});
@@ -795,6 +853,8 @@ Family(const std::string &f)
     with_prefixes("W0:L V P V D | K:B256 F B600", {0, 255});
     with_prefixes("W0:L P V D | K:F F B300 F", {255, 511});
     with_prefixes("W0:L V D L V D | K:F F", {254, 255, 511});
+    with_prefixes("W0:L V P V D | K:F B600", {255, 511});
+    with_prefixes("W0:L V P V D | K:F B300 B300 F", {255});
   } else if (f == "list2" && kCap >= 2) {
     with_prefixes("W0:L V P V D | W1:L V D | K:F F", {255, 511, 767});
     with_prefixes("W0:L V P V D | W1:C P D | K:F F B256", {255, 511});
